@@ -1,6 +1,17 @@
 // ===================== repo error types =====================
 //@@ item src/error.rs enum InvalidResponseKind
 //@@ end
+#[verifier::external_type_specification] #[verifier::external_body] pub struct ExSerdeJsonError(serde_json::Error);
+#[verifier::external_type_specification] #[verifier::external_body] pub struct ExUrlencodedError(serde_urlencoded::ser::Error);
+//@@ ifdef errorkind
+//@@ item src/error.rs enum ErrorKind
+//@@ end
+pub uninterp spec fn err_kind(e: Error) -> ErrorKind;
+pub assume_specification [<Error as From<ErrorKind>>::from] (k: ErrorKind) -> (r: Error) ensures err_kind(r) == k;
+pub assume_specification [<Error as From<http::header::InvalidHeaderValue>>::from] (k: http::header::InvalidHeaderValue) -> (r: Error);
+pub assume_specification [<Error as From<std::convert::Infallible>>::from] (k: std::convert::Infallible) -> (r: Error);
+
+//@@ endif
 /// stand-in for `crate::error::Error` (a Box<ErrorKind> holding foreign error types); opaque here
 #[verifier::external_body] pub struct Error(Box<u8>);
 pub type Result<T = ()> = std::result::Result<T, Error>;
